@@ -130,7 +130,8 @@ CLAIMS = {
         text="On ~5 600 buildable catalogue expressions Token::into_owned returns a structurally identical tree (catalogue shapes only). "
              "Decides that conversions preserve structure: variant-preserving kind tables, Token::into_owned rebuilds every "
              "catalogue tree identically, every Glob/Any construction pairs a tree with the program compiled from it, FromStr / "
-             "TryFrom / Display / Pattern routes reach new / parse_and_check.",
+             "TryFrom / Display / Pattern routes reach new / parse_and_check; after a partition the stored expression (what Display writes) is "
+             "the text of the remaining tokens, for borrowed and owned expressions (C08.bytes).",
         note=ASSUME + "Not decided: equality of behaviour as such.",
         ref="4 C19"),
     "C05": dict(
@@ -178,21 +179,25 @@ CLAIMS = {
         note=ASSUME + "The law outside the catalogue and the displayed postfix expression behind flags are not decided. Known: globs rooted through a repetition keep their root (`</a:1,>`).",
         ref="4 C08"),
     "C14": dict(
-        technique="static analysis: THIR evaluation of join_and_get_depth and split_at_depth on abstract paths (component sequences) over a base x prefix x depth table + sibling agreement of the helpers' arguments",
+        technique="static analysis: THIR evaluation of join_and_get_depth and split_at_depth on abstract paths (component sequences) over a base x prefix x depth table, judged through the entries' own accessors (GlobEntry, TreeEntry)",
         text="Decided on abstract component sequences: for every base shape (empty, `.`, relative, `./x`, absolute) x prefix "
              "shape (none, literal, rooted, with `..`, with `.`) x traversal depth, the pivot makes the root segment the walked "
              "directory (empty for rooted globs), the relative segment the prefix as written plus the traversed names, "
              "joining them gives the path, and depth() equals the number of components of the relative segment; "
-             "GlobEntry::root_relative_paths, GlobEntry::depth and the walker use the same helper with (path, walkdir depth, "
-             "stored pivot) and the same sum; to_candidate_path = complete matched text.",
+             "GlobEntry's own root_relative_paths and depth are evaluated on an entry the walker's closure builds from (path, "
+             "traversal depth, pivot), so the rule does not depend on which helpers they use; the same for TreeEntry; "
+             "to_candidate_path = complete matched text.",
         note=ASSUME + "Assumed: std::path semantics as modelled in sa/rules/pathmodel.py, walkdir depth. Found and repaired with it: depth() of rooted entries was one too large (1cead95); known: `./` prefixes lose the `.`.",
         ref="4 C14"),
     "C15": dict(
-        technique="static analysis: THIR evaluation of the behaviour plumbing (effect log of walkdir builder calls) + constructor tables",
-        text="NARROW: the numeric window after translation by the pivot and termination are not decided. Decided: each "
-             "DepthBehavior variant reaches the right walkdir builder method with minimum and maximum unswapped, LinkBehavior "
-             "reaches follow_links, the DepthBehavior constructors on a grid (tri-state), loop errors become LinkCycle.",
-        note=ASSUME + "The central behavioural law is NOT decided (saturating subtraction of the pivot: `a/b/**` with max 1).",
+        technique="static analysis: THIR evaluation of the walk constructor and the first next() against a model of walkdir's builder (effect log) on a grid of depth behaviours x pivots x link behaviours + constructor tables + the cancellation flag's provenance",
+        text="Decides the depth window end to end: for every depth behaviour (Unbounded, Max, Min, MinMax on a grid covering every ordering of "
+             "minimum, maximum and prefix length) x link behaviour, the walk consults walkdir with exactly the traversal depths w for which "
+             "min <= w + pivot <= max, follow_links = (ReadTarget), and consults nothing when no depth qualifies; the DepthBehavior "
+             "constructors on a grid (tri-state); walkdir loop errors become LinkCycle; the flag a cancellation consults is the yielded "
+             "entry's own file type, so a link read as a file is a leaf.",
+        note=ASSUME + "Assumed: walkdir honours its window, follows links only when asked and detects re-entrant links. Not decided: emptiness "
+             "when the minimum exceeds the deepest entry of the actual tree (run-time quantity); termination (walkdir's).",
         ref="4 C15"),
     "C17": dict(
         technique="static analysis: THIR evaluation of the rule functions on failing abstract trees (provenance of spans) + tables for union and LocatedError::span",
